@@ -661,6 +661,10 @@ impl<'p> IntoIterator for &'p RawOpaquePool {
     }
 }
 
+// Verification hook (H1): module-private accessors for harnesses, kept outside the repository.
+#[cfg(any(kani, folo_verif))]
+include!(concat!(env!("FOLO_VERIF_DIR"), "/kani/infinity_pool/pool_raw_hooks.rs"));
+
 #[cfg(test)]
 #[allow(
     clippy::indexing_slicing,
